@@ -10,6 +10,7 @@ import (
 	"strconv"
 	"strings"
 	"sync"
+	"sync/atomic"
 	"time"
 
 	"verifharness/common"
@@ -84,6 +85,19 @@ func c07pgen(r *common.Rng, n int, shard int, out *common.Out) {
 			"go wtime " + strings.Repeat("9", 64000), strings.Repeat(" ", 65000) + "isready"})
 		c07pemit(out, append(c07pgo("position startpos", "go depth "+strings.Repeat("1", 60000)),
 			c07pgo("position startpos", "go "+strings.Repeat("wtime 1 ", 8000)+"depth 1")...))
+		// long lines must keep their MEANING (unknown leading tokens skipped, the command executed once): a go of
+		// depth 1 behind a prefix of blanks or unknown tokens whose length straddles the usual buffer sizes; "=k" asserts
+		// that exactly k bestmove lines have been printed so far
+		for _, unit := range []string{" ", "x ", "\t", "zz9 "} {
+			var sc []string
+			k := 0
+			for _, total := range []int{4090, 4093, 4094, 4095, 4096, 4097, 8191, 8192, 8193, 16384, 40000, 65000} {
+				pad := strings.Repeat(unit, total/len(unit))
+				k++
+				sc = append(sc, "position startpos", pad+"go depth 1 movetime 400", "~450", fmt.Sprintf("=%d", k))
+			}
+			c07pemit(out, sc)
+		}
 	}
 	for i := 0; i < n; i++ {
 		var s []string
@@ -139,10 +153,14 @@ func c07pprobe(bin string, script []string) (obs string, verdict string) {
 		return "not started", "FAIL engine does not start: " + err.Error()
 	}
 	lines := make(chan string, 1024)
+	var bestmoves atomic.Int64
 	go func() {
 		sc := bufio.NewScanner(stdout)
 		sc.Buffer(make([]byte, 1<<20), 1<<26)
 		for sc.Scan() {
+			if strings.HasPrefix(sc.Text(), "bestmove ") {
+				bestmoves.Add(1)
+			}
 			select {
 			case lines <- sc.Text():
 			default: // nobody is interested any more
@@ -160,6 +178,18 @@ func c07pprobe(bin string, script []string) (obs string, verdict string) {
 		if len(l) > 1 && l[0] == '~' {
 			if ms, err := strconv.Atoi(l[1:]); err == nil {
 				time.Sleep(time.Duration(ms) * time.Millisecond)
+				continue
+			}
+		}
+		if len(l) > 1 && l[0] == '=' {
+			if want, err := strconv.Atoi(l[1:]); err == nil {
+				// give a loaded machine some more time before judging
+				for i := 0; i < 40 && bestmoves.Load() < int64(want); i++ {
+					time.Sleep(100 * time.Millisecond)
+				}
+				if got := bestmoves.Load(); got != int64(want) {
+					return fmt.Sprintf("bestmoves=%d", got), fmt.Sprintf("FAIL a go line of depth 1 behind a long prefix of blanks / unknown tokens is not executed exactly once: %d bestmove lines where %d are due", got, want)
+				}
 				continue
 			}
 		}
